@@ -181,6 +181,7 @@ class Unit:
         inserts = []     # (mode, anchor, lines)
         rewrites = []    # (old, new, all)
         desugars = {}    # loop ordinal -> iterator name (R11)
+        preloops = {}    # loop ordinal -> ghost lines placed between `mut it =>` and `loop` of a desugared loop (R3')
         endloops = {}    # loop ordinal -> ghost lines placed at the end of the loop body (R3)
         innerspecs = {}  # nested fn name -> contract lines
         atend = []       # ghost lines placed at the end of the function body (R3)
@@ -205,6 +206,10 @@ class Unit:
             elif s.startswith('//@endloop '):
                 k = int(s.split()[1])
                 cur = endloops.setdefault(k, [])
+            elif s.startswith('//@preloop '):
+                # ghost lines between the creation of a desugared loop's iterator and the loop itself (R3')
+                k = int(s.split()[1])
+                cur = preloops.setdefault(k, [])
             elif s.startswith('//@desugar '):
                 w = s.split()
                 desugars[int(w[1])] = w[2] if len(w) > 2 else 'it__%s' % w[1]
@@ -291,9 +296,13 @@ class Unit:
             pat = hdr[3:m_in.start()].strip()
             expr = hdr[m_in.end():].strip()
             close = src.match_brace(br)
-            rewrites.append((hdr.rstrip(), 'match IntoIterator::into_iter(%s) { mut %s => loop' % (expr, itname), False))
+            pre_ = preloops.get(k)
+            if pre_:
+                rewrites.append((hdr.rstrip(), 'match IntoIterator::into_iter(%s) { mut %s => {\n%s\n loop' % (expr, itname, '\n'.join(pre_)), False))
+            else:
+                rewrites.append((hdr.rstrip(), 'match IntoIterator::into_iter(%s) { mut %s => loop' % (expr, itname), False))
             ins.append((br + 1, ' let ghost %s_prev = %s; match %s.next() { None => break, Some(%s) => {' % (itname, itname, itname, pat), 'desugar#%d' % k))
-            ins.append((close + 1, ' } } }', 'desugar_close#%d' % k))
+            ins.append((close + 1, ' } } } }' if pre_ else ' } } }', 'desugar_close#%d' % k))
             self.rewrites.append(dict(rule='R11', fn=name, loop=k, pattern=pat, iterator=expr))
         # R12: an expression of the body (given by its first and last source text) is moved VERBATIM into
         # a helper function declared `external_body`, and replaced by a call of that helper.  Evaluation
